@@ -2,11 +2,13 @@
 EXTENDS Pipeline
 Core == {"create_head_count_csv", "create_milk_per_animal_csv", "create_meat_per_animal_csv", "create_crop_macros_csv",
          "create_nuclear_winter_csv", "create_population_csv", "create_seasonality_csv", "import_food_data"}
-\* averaging-helper inputs: all vectors of length <= 3 over the boundary values, with a few weightings (as <<n, d>> rationals)
+\* averaging-helper inputs: all vectors of length <= 3 over the boundary values, with a few weightings (as <<n, d>> rationals), some of them
+\* very uneven so that the valid values may carry only a sliver of the weight
 PV == {-101, -100, 0, 50, 100000, 100001}
 AvgCases == {[p |-> <<a>>, w |-> <<<<1, 1>>>>] : a \in PV} \cup
-            {[p |-> <<a, b>>, w |-> w] : a \in PV, b \in PV, w \in {<<<<1, 2>>, <<1, 2>>>>, <<<<1, 4>>, <<3, 4>>>>}} \cup
-            {[p |-> <<a, b, c>>, w |-> w] : a \in PV, b \in PV, c \in PV, w \in {<<<<1, 4>>, <<1, 4>>, <<1, 2>>>>, <<<<1, 5>>, <<2, 5>>, <<2, 5>>>>}}
+            {[p |-> <<a, b>>, w |-> w] : a \in PV, b \in PV, w \in {<<<<1, 2>>, <<1, 2>>>>, <<<<1, 4>>, <<3, 4>>>>, <<<<999, 1000>>, <<1, 1000>>>>, <<<<1, 2000>>, <<1999, 2000>>>>}} \cup
+            {[p |-> <<a, b, c>>, w |-> w] : a \in PV, b \in PV, c \in PV, w \in {<<<<1, 4>>, <<1, 4>>, <<1, 2>>>>, <<<<1, 5>>, <<2, 5>>, <<2, 5>>>>,
+                                                                               <<<<1, 1000>>, <<499, 1000>>, <<1, 2>>>>}}
 CONSTANT EmitAvg
 ASSUME EmitAvg => \A x \in AvgCases : PrintT(ToJson([k |-> "Avg", p |-> x.p, w |-> x.w]))
 =============================================================================
